@@ -208,4 +208,25 @@ Proof.
   - apply (total_rate_spec g). exact HI.
 Qed.
 
+(* an unbounded run (tmax = Inf) returns only when nothing is enabled any more: the total rate of
+   the final state is not positive, i.e. every transition's rate x (sum of the weights of its
+   enabled actors) is zero *)
+Theorem simple_exec_unbounded : forall sortable spont induced fuel ds out tr,
+  Forall (sp_tr_ok g) spont -> Forall (in_tr_ok g) induced -> tmax = None ->
+  exec (simple g sortable spont induced ic rstat tmin tmax full fuel) ds [] = (Ok out, tr) ->
+  exists sp inn l1 t' s',
+    srun g rstat tmax full tmin (start sp inn) l1 t' s' /\ finish g ic rstat tmin full s' = Ok out /\
+    SInv g s' /\ ~ 0 < total_rate s' /\
+    sumQ (map (fun sl => tr_rate (sl_tr sl) * sumQ (map (wgt sl) (items (sl_pot sl)))) (slots s')) <= 0.
+Proof.
+  intros sortable spont induced fuel ds out tr Hsp Hin Htm H.
+  destruct (simple_exec_ok sortable spont induced fuel ds out tr Hsp Hin H)
+    as [sp [inn [l1 [l2 [t' [s' [HI [HR [_ [_ [_ [Hrun [Hstop Hfin]]]]]]]]]]]]].
+  destruct (srun_inv g Hg rstat tmax full tmin _ l1 t' s' Hrun HI HR) as [HI' _].
+  exists sp, inn, l1, t', s'. split; [exact Hrun|]. split; [exact Hfin|]. split; [exact HI'|].
+  assert (Hn : ~ 0 < total_rate s').
+  { destruct Hstop as [[Hn _]|[_ [_ [d [_ Hx]]]]]; [exact Hn|]. rewrite Htm in Hx. discriminate Hx. }
+  split; [exact Hn|]. rewrite <- (total_rate_spec g s' HI'). lra.
+Qed.
+
 End Top.
